@@ -257,8 +257,8 @@ MUTANTS = [
     {"id": "c20-save-before-step", "property": "C20", "file": S,
      "old": "        try:\n            if not request.is_json:\n                result = instance.run_step()",
      "new": "        if self._external_state_adapter != None:\n            self._external_state_adapter.save_instance(self._instance_manager._get_instance_state(instance_uuid))\n        try:\n            if not request.is_json:\n                result = instance.run_step()",
-     "edits": [("        if self._external_state_adapter != None:\n            self._external_state_adapter.save_instance(self._instance_manager._get_instance_state(instance_uuid))\n\n        resp.headers['Content-Type'] = 'application/json'\n        resp.headers['Access-Control-Allow-Origin']='*'\n        return resp\n\n    @token_required\n    def _run_steps_resource",
-                "        resp.headers['Content-Type'] = 'application/json'\n        resp.headers['Access-Control-Allow-Origin']='*'\n        return resp\n\n    @token_required\n    def _run_steps_resource")],
+     "edits": [("            # externalise while the step lock is still held: once it is released another request may step and save, and a\n            # snapshot taken before that must not be written after it\n            if self._external_state_adapter != None:\n                self._external_state_adapter.save_instance(self._instance_manager._get_instance_state(instance_uuid))\n        finally:\n            instance.unlock()\n",
+                "        finally:\n            instance.unlock()\n")],
      "note": "run-step saves the state before taking the step: the acknowledged step is not durable"},
     {"id": "c20-replay-ignores-step-settings", "property": "C20", "file": B,
      "old": "                self.run_step(settings=settings_log.get(logged_step))", "new": "                self.run_step(settings=None)"},
@@ -274,9 +274,14 @@ MUTANTS = [
     {"id": "c20-integer-session-clock", "property": "C20", "file": B,
      "old": "        starttime_ = float(starttime_)\n", "new": "",
      "note": "reversal of 840053e"},
+    {"id": "c20-save-after-unlock", "property": "C20", "file": S,
+     "old": "            # externalise while the step lock is still held: once it is released another request may step and save, and a\n            # snapshot taken before that must not be written after it\n            if self._external_state_adapter != None:\n                self._external_state_adapter.save_instance(self._instance_manager._get_instance_state(instance_uuid))\n        finally:\n            instance.unlock()\n",
+     "new": "        finally:\n            instance.unlock()\n        if self._external_state_adapter != None:\n            self._external_state_adapter.save_instance(self._instance_manager._get_instance_state(instance_uuid))\n",
+     "note": "reversal of 7727a44 for run-step"},
     {"id": "c20-abandoned-stream-not-saved", "property": "C20", "file": S,
-     "old": "                yield \"]\"\n            except:\n                pass\n", "new": "                yield \"]\"\n            except Exception:\n                pass\n",
-     "note": "a tidied-up bare except: GeneratorExit (client gone) now skips the save after the loop"},
+     "old": "                yield \"]\"\n            except:\n                pass\n            finally:\n                try:\n                    # externalise while the step lock is still held (see run-step)\n                    if self._external_state_adapter != None:\n                        self._external_state_adapter.save_instance(self._instance_manager._get_instance_state(instance_uuid))\n                finally:\n                    release_lock()\n",
+     "new": "                yield \"]\"\n                if self._external_state_adapter != None:\n                    self._external_state_adapter.save_instance(self._instance_manager._get_instance_state(instance_uuid))\n            except:\n                pass\n            finally:\n                release_lock()\n",
+     "note": "the stream saves only when it ran to completion (a client that hangs up leaves the state file stale)"},
     # ---- C15
     {"id": "c15-undecorated-stop-instance", "property": "C15", "file": S,
      "old": "    @token_required\n    def _stop_instance_resource", "new": "    def _stop_instance_resource"},
